@@ -160,7 +160,7 @@ func runC02(c *Cfg) {
 	}
 	for i, cs := range cases {
 		next <- cs
-		if i%23 == 0 || cs.kind == "idiom" && i%3 == 0 {
+		if i%23 == 0 || cs.kind == "idiom" && (i%3 == 0 || i >= len(c02Idioms)-c02KnownTail) {
 			cliSample = append(cliSample, cs)
 		}
 	}
@@ -484,12 +484,31 @@ func c02Classify(f *c02Failure, min []byte) string {
 			return "label-rawstring-tie"
 		}
 		return f.kind
+	case "cli-crash":
+		if i := strings.Index(f.detail, "panic: "); i >= 0 && f.sig == "" && !strings.Contains(f.detail, "stack overflow") {
+			msg := f.detail[i+len("panic: "):]
+			for _, cut := range []string{" | ", " [recovered", "\n"} {
+				if j := strings.Index(msg, cut); j >= 0 {
+					msg = msg[:j]
+				}
+			}
+			msg = regexp.MustCompile(`0x[0-9a-f]+`).ReplaceAllString(msg, "0x")
+			msg = regexp.MustCompile(`[^A-Za-z0-9_.:()*\[\]-]+`).ReplaceAllString(msg, "_")
+			return "cli-panic/" + c02Trunc(msg, 120)
+		}
+		return c02ClassifyResource(f, min)
 	case "panic":
 		site := c02PanicSite(f.detail)
 		site = regexp.MustCompile(`0x[0-9a-f]+`).ReplaceAllString(site, "0x…")
 		site = regexp.MustCompile(`[^A-Za-z0-9_.:()*\[\]-]+`).ReplaceAllString(site, "_")
 		return "panic/" + c02Trunc(site, 140)
 	default:
+		return c02ClassifyResource(f, min)
+	}
+}
+
+func c02ClassifyResource(f *c02Failure, min []byte) string {
+	{
 		// recognised constructs first (narrowest), then the recursion cycle of a stack overflow
 		// (names the root cause; NOT used when it is the generic structural-expansion cycle,
 		// which any lost cycle check would produce), then the bare failure kind
